@@ -378,6 +378,109 @@ def run_hist(case, tmp):
     return {"hist": {k: [clean[k], after[k]] for k in clean}, "poison": poison[0], "poison_argv": argv}
 
 
+# ---------------------------------------------------------------------------------------------------------------------
+# sub-command family: one top-level key and the keys of the chosen sub-command, every channel
+# ---------------------------------------------------------------------------------------------------------------------
+def sub_parser_tree(case, mode, dcf=None):
+    kw = {"prog": "tool.py"} if case["prefix"] is True else {}
+    p = ArgumentParser(exit_on_error=False, env_prefix=case["prefix"], parser_mode=mode, default_config_files=dcf, **kw)
+    p.add_argument("--cfg", action=ActionConfigFile)
+    p.add_argument("--top", type=build_type(case["top"]["ty"]))
+    sc = p.add_subcommands()
+    for name in case["subs"]:
+        sp = ArgumentParser(exit_on_error=False, parser_mode=mode)
+        if name == case["chosen"]:
+            for leaf in case["leaves"]:
+                sp.add_argument("--" + leaf["name"], type=build_type(leaf["ty"]))
+        else:
+            sp.add_argument("--ckpt", type=str, default="last")
+        sc.add_subcommand(name, sp)
+    return p
+
+
+def sub_outcome(fn, case, keys):
+    """per leaf key: ["ok", value] | ["rejected"] | ["crash", what]"""
+    try:
+        with contextlib.redirect_stderr(io.StringIO()), contextlib.redirect_stdout(io.StringIO()):
+            cfg = fn()
+        if cfg.get("subcommand") != case["chosen"]:
+            return {k: ["crash", "OtherSubcommand"] for k in keys}
+        out = {}
+        for k in keys:
+            try:
+                out[k] = ["ok", tag(cfg[k])]
+            except KeyError:
+                out[k] = ["crash", "KeyMissing"]
+        return out
+    except ArgumentError:
+        return {k: ["rejected"] for k in keys}
+    except SystemExit as e:
+        return {k: ["crash", "SystemExit%s" % e.code] for k in keys}
+    except BaseException as e:
+        return {k: ["crash", type(e).__name__] for k in keys}
+
+
+def run_sub(case, tmp):
+    for f in typing._cleanups:
+        f()
+    chosen = case["chosen"]
+    leaves = [dict(case["top"], name="top", key="top")] + [dict(l, key=chosen + "." + l["name"]) for l in case["leaves"]]
+    keys = [l["key"] for l in leaves]
+    obj = {"top": untag(case["top"]["val"]), "subcommand": chosen, chosen: {l["name"]: untag(l["val"]) for l in case["leaves"]}}
+    doc = case["doc"]
+    path = os.path.join(tmp, "sub.json")
+    with open(path, "w") as f:
+        f.write(doc)
+    pre = {True: "tool", False: None}.get(case["prefix"], case["prefix"]) if isinstance(case["prefix"], bool) else case["prefix"]
+    pre = "" if pre is None else pre.replace("-", "_") + "_"
+    envmap = {(pre + "subcommand").upper(): chosen}
+    for l in leaves:
+        envmap[(pre + l["key"].replace(".", "__")).upper()] = l["text"]
+    for k in envmap:
+        os.environ.pop(k, None)
+    chans = {}
+    for mode in case["modes"]:
+        m = mode + "/"
+        mk = lambda: sub_parser_tree(case, mode)
+        argv = ["--top=" + case["top"]["text"], chosen] + ["--%s=%s" % (l["name"], l["text"]) for l in case["leaves"]]
+        chans[m + "argv_eq"] = sub_outcome(lambda: mk().parse_args(argv), case, keys)
+        chans[m + "object_nested"] = sub_outcome(lambda: mk().parse_object(json.loads(json.dumps(obj))), case, keys)
+        chans[m + "env"] = sub_outcome(lambda: mk().parse_env(dict(envmap)), case, keys)      # an explicit mapping
+        os.environ.update(envmap)
+        try:
+            chans[m + "env_args"] = sub_outcome(lambda: mk().parse_args([], env=True), case, keys)   # the process environment
+        finally:
+            for k in envmap:
+                os.environ.pop(k, None)
+        chans[m + "string:json_nested"] = sub_outcome(lambda: mk().parse_string(doc), case, keys)
+        chans[m + "path:json_nested"] = sub_outcome(lambda: mk().parse_path(path), case, keys)
+        chans[m + "cfgfile:json_nested"] = sub_outcome(lambda: mk().parse_args(["--cfg", path]), case, keys)
+        chans[m + "cfgstr:json_nested"] = sub_outcome(lambda: mk().parse_args(["--cfg=" + doc]), case, keys)
+        chans[m + "cfgenv:json_nested"] = sub_outcome(lambda: mk().parse_env({(pre + "cfg").upper(): doc}), case, keys)
+        chans[m + "default_config:json_nested"] = sub_outcome(lambda: sub_parser_tree(case, mode, dcf=[path]).parse_args([]), case, keys)
+    out = []
+    for l in leaves:
+        loaded = {}
+        for mode in case["modes"]:
+            ans = load_answer(ld.loaders[mode], doc)
+            if ans[0] == "val":
+                try:
+                    ans = ["val", tag(dig(untag_loaded(ans[1]), l["key"].split(".")))]
+                except KeyError:
+                    ans = ["other", "KeyMissing"]
+            loaded[mode + "/json_nested"] = ans
+        strs = [l["text"]]
+        strings_of(untag(l["val"]), strs)
+        oracle, seen = [], set()
+        for x in strs:
+            if x not in seen:
+                seen.add(x)
+                oracle.append([x, load_answer(ld.yaml_load, x)])
+        out.append({"key": l["key"], "chan": {n: c[l["key"]] for n, c in chans.items()}, "loaded": loaded, "oracle": oracle,
+                    "clash": False})
+    return {"leaves": out, "envmap": envmap}
+
+
 def untag_loaded(t):
     """inverse of tag for what loaders can return (keeps tagged leaves addressable by key)"""
     if isinstance(t, dict):
@@ -402,7 +505,7 @@ def main():
     try:
         for case in payload["cases"]:
             try:
-                fn = run_hist if case.get("kind") == "hist" else run_case
+                fn = {"hist": run_hist, "sub": run_sub}.get(case.get("kind"), run_case)
                 out.append(contextvars.copy_context().run(fn, case, tmp))
             except Exception as e:
                 out.append({"error": "%s: %s" % (type(e).__name__, e)})
